@@ -67,6 +67,9 @@ func (ex *Exec) pin(v *Term) {
 		ex.assert(ex.st.Eq(v, ex.st.Bool(val != 0)))
 	case KBV:
 		ex.assert(ex.st.Eq(v, ex.st.BV(v.S.W, val)))
+	case KReal:
+		c := ex.st.RConst(math.Float64frombits(val))
+		ex.assert(ex.st.And(ex.st.rbin(ORLe, v, c), ex.st.rbin(ORLe, c, v)))
 	default:
 		ex.assert(ex.st.Eq(ex.st.build(OFBits, SBV(64), 0, 0, v), ex.st.BV(64, val)))
 	}
@@ -455,6 +458,25 @@ func init() {
 			}
 			return ex.st.BVs(64, int64(n))
 		},
+		"vpRealRange": func(ex *Exec, fn *ssa.Function, a []Value) Value {
+			// an arbitrary finite float64 in [lo, hi], in the RELAX (real + rounding slack) encoding
+			name := ex.freshName(ex.argStr(a[0]))
+			lo, hi := a[1].(*Term).F(), a[2].(*Term).F()
+			v := ex.st.RVar(name, false)
+			ex.inputs = append(ex.inputs, v)
+			ex.pin(v)
+			ex.assert(ex.st.And(ex.st.rbin(ORLe, ex.st.RConst(lo), v), ex.st.rbin(ORLe, v, ex.st.RConst(hi))))
+			ex.realRange[v.ID] = rint{lo, hi}
+			ex.w.note("encoding: RELAX (reals with rounding slack) for float64 inputs created by vpRealRange")
+			return v
+		},
+		"vpEmitted": func(ex *Exec, fn *ssa.Function, a []Value) Value {
+			k := int(ex.argInt(a[0]))
+			if k < 0 || k >= len(ex.emitted) {
+				ex.unsupported("vpEmitted(%d): only %d numbers were emitted", k, len(ex.emitted))
+			}
+			return ex.emitted[k]
+		},
 		"vpNote": func(ex *Exec, fn *ssa.Function, a []Value) Value {
 			ex.observed = append(ex.observed, ex.argStr(a[0]))
 			return nil
@@ -490,18 +512,33 @@ func init() {
 		"strconv.Itoa": func(ex *Exec, fn *ssa.Function, a []Value) Value {
 			return StringV{s: strconv.Itoa(int(ex.argInt(a[0])))}
 		},
-		"math.Abs": func(ex *Exec, fn *ssa.Function, a []Value) Value { return ex.st.FUn(OFAbs, fpArg(a[0])) },
+		"math.Abs": func(ex *Exec, fn *ssa.Function, a []Value) Value {
+			if ex.isReal(a[0]) {
+				return ex.relaxAbs(fpArg(a[0]))
+			}
+			return ex.st.FUn(OFAbs, fpArg(a[0]))
+		},
 		"math.Sqrt": func(ex *Exec, fn *ssa.Function, a []Value) Value {
 			return ex.st.build(OFSqrt, SFP, 0, 0, fpArg(a[0]))
 		},
-		"math.Round": func(ex *Exec, fn *ssa.Function, a []Value) Value { return ex.st.FRound(fpArg(a[0]), 0) },
+		"math.Round": func(ex *Exec, fn *ssa.Function, a []Value) Value {
+			if ex.isReal(a[0]) {
+				return ex.relaxRound(fpArg(a[0]))
+			}
+			return ex.st.FRound(fpArg(a[0]), 0)
+		},
 		"math.Trunc": func(ex *Exec, fn *ssa.Function, a []Value) Value { return ex.st.FRound(fpArg(a[0]), 1) },
 		"math.Ceil":  func(ex *Exec, fn *ssa.Function, a []Value) Value { return ex.st.FRound(fpArg(a[0]), 2) },
 		"math.Floor": func(ex *Exec, fn *ssa.Function, a []Value) Value { return ex.st.FRound(fpArg(a[0]), 3) },
 		"math.RoundToEven": func(ex *Exec, fn *ssa.Function, a []Value) Value {
 			return ex.st.FRound(fpArg(a[0]), 4)
 		},
-		"math.IsNaN": func(ex *Exec, fn *ssa.Function, a []Value) Value { return ex.st.FUn(OFIsNaN, fpArg(a[0])) },
+		"math.IsNaN": func(ex *Exec, fn *ssa.Function, a []Value) Value {
+			if ex.isReal(a[0]) {
+				return ex.st.False
+			}
+			return ex.st.FUn(OFIsNaN, fpArg(a[0]))
+		},
 		"math.IsInf": func(ex *Exec, fn *ssa.Function, a []Value) Value {
 			f := fpArg(a[0])
 			sign := a[1].(*Term)
@@ -864,6 +901,54 @@ func init() {
 				bs[k] = ex.load(ex.kid(buf.arr, buf.off+k)).(*Term)
 			}
 			return ex.mkString(bs)
+		},
+		// In the RELAX encoding integers derived from floats are real terms; their byte encoding is
+		// decided for all int32 in C20 K1, so appendInt becomes a recording stub there: it appends
+		// the marker byte 0 (never produced by the real encoder) and remembers the value.
+		"seehuhn.de/go/postscript/type1.appendInt": func(ex *Exec, fn *ssa.Function, a []Value) Value {
+			if !ex.isReal(a[1]) {
+				// a merged loop counter (ite tree of constants) next to RELAX values is recorded, too
+				t, isT := a[1].(*Term)
+				if isT && t.Op == OIte && len(ex.realRange) > 0 {
+					if r, ok := ex.bvTreeToReal(t); ok {
+						if ex.spec > 0 {
+							abortMerge()
+						}
+						ex.emitted = append(ex.emitted, r)
+						return ex.doAppend(a[0].(SliceV), ex.newByteSlice([]*Term{ex.st.BV(8, 0)}), nil)
+					}
+				}
+				return ex.callBody(fn, a, nil)
+			}
+			if ex.spec > 0 {
+				abortMerge()
+			}
+			ex.w.note("stub: appendInt of a real-valued (RELAX) integer recorded instead of encoded")
+			ex.emitted = append(ex.emitted, a[1].(*Term))
+			return ex.doAppend(a[0].(SliceV), ex.newByteSlice([]*Term{ex.st.BV(8, 0)}), nil)
+		},
+		// K3 (no drift) uses appendNumber through its K2 contract: for a real-valued (RELAX) argument and
+		// with the harness parameter CONTRACT_APPENDNUMBER=1 it returns an arbitrary value within
+		// 1/214+1e-9 of the request, which is also what the decoder will reconstruct, and records it.
+		"seehuhn.de/go/postscript/type1.appendNumber": func(ex *Exec, fn *ssa.Function, a []Value) Value {
+			if !ex.isReal(a[1]) || params["CONTRACT_APPENDNUMBER"] != 1 {
+				return ex.callBody(fn, a, nil)
+			}
+			if ex.spec > 0 {
+				abortMerge() // the record below must not be made speculatively
+			}
+			ex.w.note("stub: appendNumber replaced by its contract |v - x| <= 1/214 + 1e-9 (CONTRACT_APPENDNUMBER=1)")
+			x := a[1].(*Term)
+			st := ex.st
+			ex.symKeys++
+			v := st.RVar(fmt.Sprintf("an.%d", ex.symKeys), false)
+			b := st.RConst(1.0/214 + 1e-9)
+			ex.assert(st.And(st.rbin(ORLe, st.rbin(ORSub, x, b), v), st.rbin(ORLe, v, st.rbin(ORAdd, x, b))))
+			r := ex.rng(x)
+			ex.realRange[v.ID] = rint{r.lo - 0.01, r.hi + 0.01}
+			ex.emitted = append(ex.emitted, v)
+			buf := ex.doAppend(a[0].(SliceV), ex.newByteSlice([]*Term{st.BV(8, 0)}), nil)
+			return TupleV{buf, v}
 		},
 		"maps.Clone": func(ex *Exec, fn *ssa.Function, a []Value) Value {
 			m, _ := a[0].(*MapObj)
